@@ -1,3 +1,7 @@
 Require Extraction. Require Import ExtrOcamlBasic.
-From GV Require Import DeferredModel.
-Extraction "deferred_model.ml" DeferredModel.run_case.
+From Coq Require Import List ZArith.
+From GV Require Import Sched Enum DeferredModel.
+Definition enum_case (cfg : list Z) (progs : list (list (list Z))) (depth budget : Z) :=
+  let '(m, thr) := match cfg with m :: r => (m, r) | nil => (0%Z, nil) end in
+  enum_case_gen glob loc tstep (init m thr (map decode_prog progs)) depth budget.
+Extraction "deferred_model.ml" DeferredModel.run_case enum_case.
